@@ -7,6 +7,14 @@ import json, os, sys
 RECV = {"ref": "&self", "mut": "&mut self", "own": "self"}
 RET = {"i64": "i64", "u64": "u64", "u32": "u32", "u8": "u8", "res": "Result<u64, ()>"}
 DFLT = {"i64": "0", "u64": "0", "u32": "0", "u8": "0", "res": "Ok(0)"}
+WRAP = {"cb": "OpaqueCallback<%s>", "it": "CIterator<%s>", "sl": "&[%s]", "op": "Option<%s>", "vec": "CVec<%s>", "tup": "CTup2<%s, u8>", "box": "CBox<'static, %s>"}
+
+
+def ty(t):
+    if "_" in t:
+        w, e = t.split("_")
+        return WRAP[w] % e
+    return RET.get(t, t)
 
 
 def trait_src(d):
@@ -16,7 +24,7 @@ def trait_src(d):
     lines.insert(0, "    #[cglue_trait]")
     lines.append("    pub trait T {")
     for m in d["ms"]:
-        args = "".join(", a%d: %s" % (i, t) for i, t in enumerate(m["args"]))
+        args = "".join(", a%d: %s" % (i, ty(t)) for i, t in enumerate(m["args"]))
         body = ";"
         if m["dflt"] or m["skip"]:
             body = " { %s }" % DFLT[m["ret"]]
@@ -24,7 +32,7 @@ def trait_src(d):
             lines.append("        /// Documentation does not cross the boundary.")
         if m["skip"]:
             lines.append("        #[skip_func]")
-        lines.append("        fn %s(%s%s) -> %s%s" % (m["name"], RECV[m["recv"]], args, RET[m["ret"]], body))
+        lines.append("        fn %s(%s%s) -> %s%s" % (m["name"], RECV[m["recv"]], args, ty(m["ret"]), body))
     lines.append("    }")
     return "\n".join(lines)
 
